@@ -71,8 +71,8 @@ func C17(run *ev.Run, tier string) map[string]interface{} {
 		cfg := c03cfg{name: "GSI-hash", cfg: drv.TableCfg{Hash: "h", HashT: "S", Billing: "PAY_PER_REQUEST", GSI: []drv.IndexCfg{{Name: "gsi", Hash: "g", HashT: "S"}}}, keys: keys}
 		writes := c03Alphabet(cfg)
 		failing := c08Failing(keys, false, false)
-		u := Universe{Keys: map[string][]val.Item{"tab": keys, "other": {}}}
-		mk("failing-requests", newImpl, []drv.Op{{K: drv.KCreate, Table: "tab", Cfg: &cfg.cfg}},
+		u := Universe{Keys: map[string][]val.Item{"tab": keys, "tb2": keys[:1], "other": {}}}
+		mk("failing-requests", newImpl, []drv.Op{{K: drv.KCreate, Table: "tab", Cfg: &cfg.cfg}, {K: drv.KCreate, Table: "tb2", Cfg: &hcfg}}, // (tb2: the second table of C08's two-table batches)
 			func(m *model.Model) []drv.Op { return append(writes(m), failing...) },
 			func(m *model.Model) []drv.Op { return ObserveOps(m, u) }, cap)
 		// a menu request that the implementation accepts is compared but not explored further
